@@ -572,15 +572,13 @@ int KSI_TLV_appendNestedTlv(KSI_TLV *target, KSI_TLV *tlv) {
 	}
 	KSI_ERR_clearErrors(target->ctx);
 
+	/* The target may still hold its payload in encoded form: the elements found there come first. */
 	if (target->nested == NULL) {
-		res = KSI_TLVList_new(&list);
+		res = encodeAsNestedTlvs(target);
 		if (res != KSI_OK) {
 			KSI_pushError(target->ctx, res, NULL);
 			goto cleanup;
 		}
-
-		target->nested = list;
-		list = NULL;
 	}
 
 	res = KSI_TLVList_append(target->nested, tlv);
